@@ -64,6 +64,13 @@ func NewGzipResponseWriter(w http.ResponseWriter, contentTypes *regexp.Regexp) *
 }
 
 func (grw *GzipResponseWriter) WriteHeader(code int) {
+	// Informational responses (e.g. 100 Continue, 103 Early Hints) precede
+	// the final response and have their own headers. Pass them through and
+	// decide about compression on the headers of the final response.
+	if code >= 100 && code <= 199 && code != http.StatusSwitchingProtocols {
+		grw.ResponseWriter.WriteHeader(code)
+		return
+	}
 	if grw.writer == nil {
 		if isCompressable(grw.Header(), grw.contentTypes) {
 			grw.Header().Del(headerContentLength)
